@@ -1,4 +1,5 @@
 """C05 SM2 public-key encryption round-trips and conforms to GB/T 32918.4"""
+import re
 from ..prov import Prov, norm, last
 from ..builder import Canon, branch_sequences, preimage
 from .. import frame as FR, rules_g as G
@@ -53,10 +54,19 @@ def check_kdf(cx, qual, rule='F-KDF'):
     cn = Canon(fn, P)
     hs = FR.calls_of(fn, 'gm_sm3::sm3_hash')
     cx.floor(rule, fn.short + '/hash-sites', len(hs), 2, 'SM3 invocations in the KDF (loop body + last block)')
-    block = '[$z, to_be_bytes:u32(%s)]' % COUNTER
+    # the counter: a variable started at 1 and incremented once per block (the same expression at both hash sites), or the
+    # loop variable of `for ct in 1..B` for the full blocks and max(B, 1) for the last one -- the loop runs max(B-1, 0)
+    # times, so the block after it is number 1 + max(B-1, 0) = max(B, 1)
+    c0 = c1 = COUNTER
+    seqs = [preimage(fn, P, b, 0, cn)[0] for b in hs]
+    if len(seqs) == 2 and all(sq and len(sq) == 2 for sq in seqs):
+        m_ = re.match(r'^to_be_bytes:u32\(each\(Range::Range\{1, (.*)\}\)\)$', seqs[0][1])
+        if m_ and seqs[1][1] == 'to_be_bytes:u32(max(%s, 1))' % m_.group(1):
+            c0, c1 = 'each(Range::Range{1, %s})' % m_.group(1), 'max(%s, 1)' % m_.group(1)
+    block = '[$z, to_be_bytes:u32(%s)]' % c0
     for b in hs:
         seq, other = preimage(fn, P, b, 0, cn)
-        FR.check_seq(cx, rule, '%s/preimage@%d' % (fn.short, hs.index(b)), fn, seq, ['$z', 'to_be_bytes:u32(%s)' % COUNTER],
+        FR.check_seq(cx, rule, '%s/preimage@%d' % (fn.short, hs.index(b)), fn, seq, ['$z', 'to_be_bytes:u32(%s)' % (c0 if hs.index(b) == 0 else c1)],
                      'KDF block preimage is Z || 4-byte big-endian counter starting at 1, +1 per block', b)
     # result layout
     rets = [(b, i, st['rv']['op']) for b, i, st in fn.stmts() if st['k'] == 'assign' and st['lhs']['l'] == 0 and not st['lhs']['p'] and st['rv']['k'] == 'use']
@@ -66,7 +76,8 @@ def check_kdf(cx, qual, rule='F-KDF'):
     b, i, op = rets[0]
     chains = branch_sequences(fn, P, op, b, i, cn)
     h = 'sm3_hash(%s)' % block
-    want = sorted([['LOOP(bytes:%s)' % h, h], ['LOOP(bytes:%s)' % h, 'index(%s, Range::Range{0, Rem($klen, 32)})' % h]])
+    hl = 'sm3_hash([$z, to_be_bytes:u32(%s)])' % c1        # the last block
+    want = sorted([['LOOP(bytes:%s)' % h, hl], ['LOOP(bytes:%s)' % h, 'index(%s, Range::Range{0, Rem($klen, 32)})' % hl]])
     got = sorted(seq for _, seq in (chains or []))
     cx.add(rule, fn.short + '/result', got == want,
            'KDF output = full hash blocks in a loop, then the last block whole (klen%%32==0) or truncated to klen%%32 bytes: %s' % (got if got != want else 'ok'),
@@ -92,7 +103,7 @@ def check_kdf(cx, qual, rule='F-KDF'):
                 return outs
             a_eq = appended(eq_edges[0]) if eq_edges else []
             a_ne = appended(ne_edges[0]) if ne_edges else []
-            okb = (h in a_eq and not any('Rem($klen' in x for x in a_eq)) and any(x.startswith('index(' + h) for x in a_ne)
+            okb = (hl in a_eq and not any('Rem($klen' in x for x in a_eq)) and any(x.startswith('index(' + hl) for x in a_ne)
     cx.add(rule, fn.short + '/trunc-branch', okb, 'the whole last block is used exactly when klen % 32 == 0, otherwise its first klen % 32 bytes', fn.loc())
     # loop trip count
     nx = FR.calls_of(fn, 'next')
